@@ -20,6 +20,12 @@ class MaybeEncodingError(Exception):
     """Stand-in for multiprocessing.pool.MaybeEncodingError."""
 
 
+def multiprocessing_TimeoutError():
+    import multiprocessing
+
+    return multiprocessing.TimeoutError()
+
+
 def _roundtrip_exc(exc: BaseException) -> BaseException:
     try:
         return pickle.loads(pickle.dumps(exc))
@@ -254,12 +260,14 @@ class _MapAsyncResult:
 
     def wait(self, timeout=None) -> None:
         sim = self.pool.sim
-        sim.sched_point(("map_async.wait", self.pool.pid, self.job.jid), cond=lambda: self.job.number_left == 0)
-        for c in self.job.clocks:
-            sim.hb_recv(c)
+        if sim.timed_wait(("map_async.wait", self.pool.pid, self.job.jid), lambda: self.job.number_left == 0, timeout):
+            for c in self.job.clocks:
+                sim.hb_recv(c)
 
     def get(self, timeout=None):
-        self.wait()
+        self.wait(timeout)
+        if not self.ready():
+            raise multiprocessing_TimeoutError()
         if self.job.success:
             return self.job.value[0] if self.single else self.job.value
         raise self.job.value
